@@ -80,7 +80,7 @@ func specND0(v uint64) int {
 //@ func fmtInt
 //@   props C20
 //@   requires [C20.room] len(buf) >= specND(v)
-//@   assigns buf[len(buf)-specND(v):len(buf)]
+//@   assigns buf[0:len(buf)]
 //@   ensures [C20.w] result == len(buf) - specND(v)
 //@   loop 1 invariant [C20.inv] w - specND0(v) == len(buf) - specND(old(v)) && w >= specND0(v) && w <= len(buf)
 //@   loop 1 invariant [C20.frame] forall(i, 0, w, buf[i] == old(buf[i]))
@@ -122,7 +122,7 @@ func specDivPow10(v uint64, k int) uint64 {
 //@   props C20
 //@   requires [C20.prec] 0 <= prec && prec <= 9
 //@   requires [C20.room] prec == 0 || len(buf) >= prec + 1
-//@   assigns buf[len(buf)-prec-1:len(buf)]
+//@   assigns buf[0:len(buf)]
 //@   ensures [C20.w] nw <= len(buf) && nw >= len(buf) - prec - 1 && implies(prec == 0, nw == len(buf))
 //@   ensures [C20.v] nv == specDivPow10(v, prec)
 //@   loop 1 invariant [C20.inv] 0 <= i && i <= prec && w <= len(buf) && w >= len(buf) - i && (printed || w == len(buf)) && implies(printed, i > 0) && v == specDivPow10(old(v), i)
@@ -134,7 +134,7 @@ func specDivPow10(v uint64, k int) uint64 {
 //@   requires [C20.w] w == len(buf)
 //@   requires [C20.u] u < 1000000000
 //@   requires [C20.room] len(buf) >= 11
-//@   assigns buf[len(buf)-11:len(buf)]
+//@   assigns buf[0:len(buf)]
 //@   ensures [C20.nw] nw >= len(buf) - 11 && nw < len(buf)
 
 //@ func fmtSeconds
@@ -142,15 +142,15 @@ func specDivPow10(v uint64, k int) uint64 {
 //@   requires [C20.w] w == len(buf)
 //@   requires [C20.u] u < 1000000000
 //@   requires [C20.room] len(buf) >= 12
-//@   assigns buf[len(buf)-12:len(buf)]
+//@   assigns buf[0:len(buf)]
 //@   ensures [C20.nw] nw >= len(buf) - 12 && nw < len(buf)
 
 //@ func shortDurFormat
 //@   props C20
 //@   requires buf != nil
-//@   assigns buf[0:32]
-//@   ensures [C20.total] 0 <= result && result < 32
+//@   assigns buf[0:40]
+//@   ensures [C20.total] 0 <= result && result < 40
 
 //@ func shortDur
 //@   props C20
-//@   ensures [C20.total] len(result) >= 1 && len(result) <= 32
+//@   ensures [C20.total] len(result) >= 1 && len(result) <= 40
